@@ -10,11 +10,12 @@
 (*                                                                            *)
 (* Two levels are kept apart:                                                 *)
 (*   - the faithful machine (what the code does, cache included);             *)
-(*   - what the property states: with the variable set to a directory when    *)
-(*     the process starts and not touched afterwards every name is served     *)
-(*     from there, without it from the package; paths are served from where   *)
-(*     they point.  Once the program changes the variable the statement is    *)
-(*     silent (StatementAllows is TRUE), the faithful machine is not.         *)
+(*   - what the property states: the value the variable has when a name is    *)
+(*     first resolved selects the directory (a directory: every name is       *)
+(*     served from there; unset or empty: from the package); paths are served *)
+(*     from where they point.  Once the program changes the variable *after*  *)
+(*     a name has been resolved the statement is silent (StatementAllows is   *)
+(*     TRUE); the faithful machine is not.                                    *)
 EXTENDS Naturals, Sequences, FiniteSets, TLC
 
 CONSTANTS Dirs,        \* existing directories, "pkg" among them
@@ -27,13 +28,14 @@ CONSTANTS Dirs,        \* existing directories, "pkg" among them
 Unset == "unset"
 NoCache == "none"
 VARIABLES venv,      \* current value of the variable
-          vstart,    \* its value when the process started
-          vtouched,  \* the program has modified it
+          vstart,    \* the value in force for the statement: as of the first resolution of a name
+          vused,     \* a name has been resolved
+          vtouched,  \* the program has modified the variable after that
           vcache,    \* resolved data directory or NoCache
           vobs       \* outcome of the last load
-dvars == <<venv, vstart, vtouched, vcache, vobs>>
+dvars == <<venv, vstart, vused, vtouched, vcache, vobs>>
 
-DInit == /\ venv \in EnvValues /\ vstart = venv /\ vtouched = FALSE /\ vcache = NoCache
+DInit == /\ venv \in EnvValues /\ vstart = venv /\ vused = FALSE /\ vtouched = FALSE /\ vcache = NoCache
          /\ vobs = [k |-> "init"]
 
 Served(d, n) == IF n \in Has[d] THEN [k |-> "from", d |-> d, n |-> n, how |-> "name"]
@@ -41,8 +43,10 @@ Served(d, n) == IF n \in Has[d] THEN [k |-> "from", d |-> d, n |-> n, how |-> "n
 \* the directory a fresh resolution yields ("nodir" is not a directory)
 Fresh(env) == IF env \in {Unset, ""} THEN "pkg" ELSE env
 
-SetEnv(v) == /\ v \in EnvValues /\ venv' = v /\ vtouched' = TRUE
-             /\ vobs' = [k |-> "setenv"] /\ UNCHANGED <<vstart, vcache>>
+SetEnv(v) == /\ v \in EnvValues /\ venv' = v
+             /\ IF vused THEN vtouched' = TRUE /\ UNCHANGED vstart
+                ELSE vstart' = v /\ UNCHANGED vtouched          \* nothing resolved yet: the new value is the one that counts
+             /\ vobs' = [k |-> "setenv"] /\ UNCHANGED <<vused, vcache>>
 LoadName(n) ==
   /\ n \in Names
   /\ LET d == CASE Variant = "ignoreenv" -> "pkg"
@@ -52,12 +56,13 @@ LoadName(n) ==
      THEN vobs' = [k |-> "error", cls |-> "RuntimeError"] /\ UNCHANGED vcache    \* nothing is cached on failure
      ELSE /\ vcache' = d
           /\ vobs' = IF Variant = "fallback" /\ n \notin Has[d] THEN Served("pkg", n) ELSE Served(d, n)
+  /\ vused' = (vused \/ Fresh(venv) \in Dirs)                 \* a failed resolution settles nothing
   /\ UNCHANGED <<venv, vstart, vtouched>>
 LoadPath(d, n) ==
   /\ d \in Dirs /\ n \in Names
   /\ vobs' = (IF n \in Has[d] THEN [k |-> "from", d |-> d, n |-> n, how |-> "path"]
               ELSE [k |-> "error", cls |-> "FileNotFoundError"])
-  /\ UNCHANGED <<venv, vstart, vtouched, vcache>>
+  /\ UNCHANGED <<venv, vstart, vused, vtouched, vcache>>
 
 DNext == \/ \E v \in EnvValues : SetEnv(v)
          \/ \E n \in Names : LoadName(n)
@@ -76,7 +81,7 @@ Allows(obs, touched, start) ==
 StatementAllows(obs) == Allows(obs, vtouched, vstart)
 \* the faithful machine never leaves what the statement allows
 Refines == StatementAllows(vobs)
-\* the override is honoured: started with a directory in the variable, every name comes from it
+\* the override is honoured: with a directory in the variable when names are first resolved, every name comes from it
 OverrideHonoured == (~vtouched /\ vstart \in Dirs /\ vobs.k = "from" /\ vobs.how = "name") => vobs.d = vstart
 \* a name that the selected directory has never fails, one it lacks never silently comes from elsewhere
 NoFallback == (vobs.k = "from" /\ vobs.how = "name") => vobs.n \in Has[vobs.d] /\ vobs.d = vcache
